@@ -253,6 +253,11 @@ def find_bad_calls(gdir):
     import re
     bad = []
     LEN = ("{c_var_len}", "{cfi_prefix}{c_var}->elem_len")
+    for m in re.finditer(r'StringCtor "([^"]*)" "([^"]*)" \[(.*)\];?$', txt, flags=re.M):
+        a = re.findall(r'"((?:[^"]|"")*)"', m.group(3))
+        if a and a[0] == "{c_var}" and ((len(a) == 1 and m.group(1).endswith("_buf")) or (len(a) == 2 and a[1] != "{c_var_trim}")):
+            bad.append({"statement": m.group(1), "clause": m.group(2), "args": a,
+                        "what": "a std::string is built from the blank-padded Fortran text without its trimmed length (it runs to the next NUL: trailing blanks kept, bytes past the variable read)"})
     for m in re.finditer(r'RawStore "([^"]*)" "([^"]*)" "([^"]*)"', txt):
         if m.group(3) != "0":
             bad.append({"statement": m.group(1), "clause": m.group(2), "what": "stores into the caller's character buffer at index '%s' without a helper that is given "
